@@ -28,6 +28,9 @@ pub struct Scenario {
     /// every k-th image is recovered (1 = all)
     #[serde(default = "one")]
     pub stride: usize,
+    /// only the image left by the graceful shutdown at the end of the workload is recovered (C03)
+    #[serde(default)]
+    pub graceful_only: bool,
 }
 fn one() -> usize {
     1
@@ -105,7 +108,7 @@ impl CrashLens {
         let initial: std::collections::HashMap<String, u64> = crate::util::dir_size_files(&dir).into_iter().map(|(p, l)| (p[dir.len()..].to_string(), l)).collect();
         {
             let (progress, images, dir, root) = (progress.clone(), images.clone(), dir.clone(), root.clone());
-            server::verif::set_fs_hook(Some(Arc::new(move |kind, path| {
+            server::verif::set_fs_hook(if scn.graceful_only { None } else { Some(Arc::new(move |kind, path| {
                 if !path.starts_with(&dir) {
                     return;
                 }
@@ -122,7 +125,7 @@ impl CrashLens {
                     sent: p.1.clone(),
                     offsets: p.2.clone(),
                 });
-            })));
+            })) });
         }
         let mut rng = Rng(scn.seed ^ 0xc4a5);
         let mut next_m = 1u64;
@@ -168,7 +171,17 @@ impl CrashLens {
         }
         server::verif::set_fs_hook(None);
         drop(c);
-        let _ = srv::stop(inc, false);
+        // the workload ends with a GRACEFUL shutdown (what main.rs does on SIGTERM: System::shutdown, then the process exits):
+        // the directory it leaves is one more image, of kind "graceful", which must hold everything that was accepted (C03)
+        let graceful_res = srv::stop(inc, true);
+        {
+            let mut imgs = images.lock().unwrap();
+            let n = imgs.len();
+            copy_dir(&dir, &format!("{root}/img{n}"));
+            let p = progress.lock().unwrap();
+            imgs.push(Image { n, kind: "graceful".into(), rel_path: String::new(), len_after: 0, acked: p.1.clone(), sent: p.1.clone(), offsets: p.2.clone() });
+        }
+        let _ = graceful_res;
         let imgs = images.lock().unwrap().clone();
         out.emit(&json!({"ev":"reset","sc":idx,"id":scn.id,"cfg":serde_json::to_value(&scn.cfg).unwrap(),"images":imgs.len(),"wait":wait}));
         let mut i = 0u64;
